@@ -189,3 +189,51 @@ def delete_helpers(ctx, rule):
                     ctx.decide(rule, f, "join_runs drops the second of two equal neighbours (boundary between them)", True if plus else (False if bare else None),
                                "the first run's start boundary is deleted instead of the boundary between the runs", node=r.ast, key="plus-one", engine="E5")
             ctx.decide(rule, f, "%s deletes the same positions from boundaries and values, in (events, values) order" % name, ok, node=r.ast, key="co-delete", engine="E6")
+
+
+def weighted_sum_dtype(ctx, rule, f):
+    """KB: int64 * uint64 has no common integer type, numpy promotes the product to float64.  A length-weighted sum
+    `lengths * values` therefore leaves the integers for unsigned 64-bit values (inexact above 2**53, float result)
+    unless the lengths are cast to an unsigned type on every path taken for unsigned values"""
+    from .guards import reachable_under, find_calls
+    fa = ctx.fa(f)
+    subj = lambda t: t.k == "attr" and t.a[1] == "dtype"
+    what = "for unsigned run values the run lengths are unsigned too before they are multiplied (int64 * uint64 would promote to float64)"
+    found = 0
+    for n in fa.cfg.stmts():
+        if not fa.cfg.is_reachable(n):
+            continue
+        from .resolve import _exprs_of_node
+        for e in _exprs_of_node(n):
+            for x in ast.walk(e):
+                if not (isinstance(x, ast.BinOp) and isinstance(x.op, ast.Mult)):
+                    continue
+                tl, tr = fa.term(x.left, n), fa.term(x.right, n)
+                for w, v, wast in ((tl, tr, x.left), (tr, tl, x.right)):
+                    is_w = all(any((y.k == "attr" and y.a[1] in ("_events", "_indices", "_row_len", "_ends", "_starts")) for y in walk(a)) for a in alts(w)) \
+                        and not any(y.k == "attr" and y.a[1] == "_values" for y in walk(w))
+                    is_v = any(y.k == "attr" and y.a[1] == "_values" for y in walk(v))
+                    if not (is_w and is_v):
+                        continue
+                    found += 1
+                    def cast(a):
+                        return any(y.k == "call" and y.a[0].k == "attr" and y.a[0].a[1] == "astype" and y.a[1] and (
+                            (attr_chain(y.a[1][0]) or ("",))[-1] in ("uint64", "uint", "dtype") or (y.a[1][0].k == "const" and str(y.a[1][0].a[0]).startswith("u"))) for y in walk(a))
+                    al = alts(w)
+                    if all(cast(a) for a in al):
+                        ctx.holds(rule, f, what, node=x, key="weights:%s" % ast.unparse(wast), engine="KB")
+                        continue
+                    cast_nodes = [fa.node_of(a.node) for a in al if cast(a) and a.node is not None]
+                    cast_nodes = [c for c in cast_nodes if c is not None]
+                    if cast_nodes:
+                        reach = reachable_under(fa, "unsigned", subj, avoid=cast_nodes)
+                        ok = n.id not in reach
+                        ctx.decide(rule, f, what, True if ok else None, "an un-cast definition of the lengths may reach the product", node=x, key="weights:%s" % ast.unparse(wast), engine="KB")
+                    else:
+                        reach = reachable_under(fa, "unsigned", subj)
+                        ctx.decide(rule, f, what, False if n.id in reach else True,
+                                   "`%s`: the lengths are int64 and the values may be uint64: numpy promotes the product to float64, so the sum of "
+                                   "uint64 run values is a float (inexact above 2**53) where numpy's sum of the decoded array is uint64" % ast.unparse(x),
+                                   node=x, key="weights:%s" % ast.unparse(wast), engine="KB")
+    if not found:
+        ctx.unknown(rule, f, what, "no length-weighted product recognised", engine="KB")
